@@ -756,9 +756,12 @@ def frange(start, stop, step=1.0):
     while x + epsilon < stop:
         i += 1.0
         x = x0 + i * step
+        # The values stay inside the interval and a value which is the end value up to round-off is the end value
+        if x > stop or abs(stop - x) <= 1e-9 * abs(step):
+            x = float(stop)
         yield x
     if stop > x:
-        yield stop  # for yielding last value of the knot vector if the step is a large value, like 0.1
+        yield float(stop)  # for yielding last value of the knot vector if the step is a large value, like 0.1
 
 
 def convex_hull(points):
